@@ -46,8 +46,7 @@ func frontier(e *conc.Enc, m map[string]string) []*conc.Node {
 		if m[n.X] == "true" {
 			continue
 		}
-		k := n.Ev.Kind
-		if k != "recv" && k != "sel" && k != "wait" {
+		if !e.IsBlocking(n) {
 			continue
 		}
 		if n.Parent != nil {
